@@ -114,11 +114,11 @@ Proof.
 Qed.
 
 (* Token conservation.  [wb_fl t] are the ids the c16_bound scanner holds in flight on the
-   current connection (QoS>0 PUBLISH sent successfully, PUBACK/PUBCOMP not yet received),
-   [wb_spur t] says that the peer acknowledged an id that was not in flight.  For every
+   current connection (QoS>0 PUBLISH or re-sent PUBREL sent successfully, PUBACK/PUBCOMP not
+   yet received), [wb_spur t] says that the peer acknowledged an id that was not in flight.  For every
    accepted trace whose resumes fit the window, in the state reached:
      in flight + free slots + slot held by the dequeuer + slot being returned <= W
-   unless the peer has sent a spurious acknowledgement on this connection; and the
+   unless the peer has sent a spurious acknowledgement in this session; and the
    number of free slots never exceeds W, unconditionally. *)
 Theorem c16_conservation_holds : forall es s,
   bc_run es = Some s ->
@@ -129,9 +129,8 @@ Theorem c16_conservation_holds : forall es s,
       N.of_nat (length (wb_fl t)) + tdeq s + held (dp s) + credit (pp s) <= cw s)).
 Proof.
   intros es s Hrun. split; [apply (W_cap _ (INVW_reachable _ _ Hrun))|]. intros Hh.
-  destruct (wb_run_rel es bc_init (WbSt 0 [] false) 0 s INV_init) as (t & u & E & _ & HB); try assumption.
-  - split; [split; reflexivity|]. right. cbn. repeat split. lia.
-  - exists t. split; [exact E|]. destruct HB as [Hs|(_ & Hi & _)]; [left; exact Hs|right; exact Hi].
+  destruct (wb_run_rel es bc_init (WbSt 0 [] false) 0 s INV_init R_wb_init Hrun Hh) as (t & u & E & _ & _ & HB).
+  exists t. split; [exact E|]. destruct HB as [Hs|(Hi & _)]; [left; exact Hs|right; exact Hi].
 Qed.
 
 (* ------------------------------------------------ tokens come back (no leak) *)
